@@ -1,6 +1,7 @@
 package drv
 
 import (
+	"encoding/asn1"
 	"net/http"
 	"net/url"
 	"encoding/base64"
@@ -410,13 +411,20 @@ func (i *Inst) RunHostile(s *HsScript, tw *TraceWriter, rng *rand.Rand) error {
 			case "huge-length":
 				body = []byte{0x30, 0x84, 0xff, 0xff, 0xff, 0xff, 0x01}
 			case "short-message":
-				body = []byte{0x30, 0x05, 0xa0, 0x03, 0x04, 0x01, 0x41} // kerb-message of one byte: shorter than a length prefix
+				// a kerb-message of 0..3 bytes: shorter than the length prefix a KDC request starts with
+				body, _ = asn1.Marshal(kdcProxyMsg{Message: randBytes(rng, rng.Intn(4))})
 			case "trailing":
 				body = []byte{0x30, 0x05, 0xa0, 0x03, 0x04, 0x01, 0x41, 0x00, 0x00}
 			default:
 				return fmt.Errorf("unknown class %q", s.Cls)
 			}
-			st, _ := rawExchange(i.P.Addr, "POST", "/KdcProxy", body, false, 8*time.Second)
+			t0 := time.Now()
+			st, _ := rawExchange(i.P.Addr, "POST", "/KdcProxy", body, false, 9*time.Second)
+			if st <= 0 && time.Since(t0) > 8500*time.Millisecond && !i.P.TLS {
+				// neither an answer nor the end of the connection within the time the proxy gives its KDCs plus slack:
+				// the request is stuck in the gateway
+				wedged = true
+			}
 			if i.P.TLS {
 				st = 0 // rawExchange speaks plain TCP only; the kerberos instances run without TLS
 			}
